@@ -841,3 +841,39 @@ def nul1_null_map_never_ignored(ctx):
         ctx.check('NUL-1', '%s|forwards-null-map' % b.name, fw,
                   'the `present` argument reaches push_present', where(site))
     ctx.require(n >= 3, 'NUL-1: fewer than 3 typed push functions with a null-map parameter (%d)' % n)
+
+
+# ------------------------------------------------------------------------------------ FLW-21
+SELECTIVE = re.compile(r'(?:Iterator>?::|iter::)(filter|filter_map|skip_while|take_while|take|skip|step_by|'
+                       r'map_while|nth|find|find_map)(::<|$)|std::iter::(Filter|FilterMap|SkipWhile|TakeWhile|Take|Skip|StepBy|MapWhile)<')
+
+
+def flw21_catalogue_sees_every_key(ctx):
+    ctx.rule('FLW-21', 'the column names for which catalogue rows are written are all keys of the batch: '
+                       'nothing selects among `TableBuffer::columns()` on the way to '
+                       '`Table::new_column_names` (the ingestion siblings add every key to the name set, '
+                       'so a key skipped here never gets its catalogue row)', floor=1)
+    P = ctx.P
+    sites = list(P.call_sites(lambda f: norm_callee(f).endswith('mem_store::table::Table::new_column_names')))
+    ctx.require(sites, 'FLW-21: no caller of Table::new_column_names')
+    for body, blk, t in sites:
+        if blk.cleanup:
+            continue
+        from .durability import top_function
+        top = top_function(P, body).name
+        du = DefUse(body)
+        arg = t.args[1] if len(t.args) > 1 else None
+        org = du.origins(base_local(arg)) if arg else {'calls': []}
+        from_cols = any(norm_callee(c.func).endswith('TableBuffer::columns') or
+                        re.search(r'HashMap::<.*>::(keys|iter)$', norm_callee(c.func)) is not None
+                        for (_b, c) in org['calls'])
+        sel = [m.group(0) for m in [SELECTIVE.search(t.func or '')] if m]
+        for (_b, c) in org['calls']:
+            m = SELECTIVE.search(c.func or '')
+            if m:
+                sel.append(m.group(0))
+        ctx.check('FLW-21', '%s|all-keys-offered' % top, from_cols and not sel,
+                  'new_column_names receives %s%s' % (
+                      'every key of the batch (TableBuffer::columns through map only)' if from_cols and not sel
+                      else 'a selection of the keys' if sel else 'something that is not derived from the batch keys',
+                      (': ' + ', '.join(sorted(set(sel)))) if sel else ''), where(t))
